@@ -381,8 +381,9 @@ int main(int argc, char** argv) {
             if (g_copts.mapping_kind() != csv::csv_mapping_kind::n_rows && !g_copts.assume_header() && r.coin()) g_copts.column_names("x,y,z");
             g_copt_desc = "mapping=" + std::to_string((int)g_copts.mapping_kind()) + " header=" + std::to_string(g_copts.assume_header()) + " delim=" + std::string(1, g_copts.field_delimiter()) + " trim=" + std::to_string(g_copts.trim()) + " ignore_empty=" + std::to_string(g_copts.ignore_empty_lines())
                 + " subfield=" + std::to_string((int)g_copts.subfield_delimiter()) + " header_lines=" + std::to_string(g_copts.header_lines()) + " infer=" + std::to_string(g_copts.infer_types()) + " max_lines=" + std::to_string(g_copts.max_lines()) + " names=" + std::to_string(g_copts.column_names().size());
-            // open finding (witness in the regression catalogue): column mapping with subfields + a text that ends inside a quoted field
-            if (g_copts.mapping_kind() == csv::csv_mapping_kind::m_columns && g_copts.subfield_delimiter() != 0) { size_t q = 0; for (char ch : t) if (ch == '"') ++q; if (q % 2 == 1) { H.count_("csv.excluded_m_columns_text_ending_inside_quotes"); return; } }
+            // open finding D105 (witness in the regression catalogue): column mapping with subfields + a text whose last field is quoted
+            // (terminated or not) and not followed by a line break
+            if (g_copts.mapping_kind() == csv::csv_mapping_kind::m_columns && g_copts.subfield_delimiter() != 0 && t.find('"') != std::string::npos) { H.count_("csv.excluded_m_columns_subfields_quoted_field"); return; }
             H.note_distinct(hash_str(t, 77)); set_flight_desc("csv " + hex(t).substr(0, 1500));
             check_csv(t, r, thorough || c % 4 == 0);
             if (H.sample_seen < 12 || r.chance(1, 1000)) H.sample(J().str("format", "csv").str("text", t.substr(0, 200)).done()); else ++H.sample_seen;
